@@ -183,7 +183,10 @@ def check(ctx):
     roots += [f.key for f in prog.real_fns() if f.name in ("verify_signature", "verify_detached_signature", "verify_tag", "decrypt",
                                                               "tbs_data", "tbs_detached_data", "tbm", "aad")
               or f.name.startswith(("create_", "try_create_", "add_created", "add_detached", "try_add_"))]
-    reach = {cg.def_of(k) for k in cg.reachable([r for r in roots if r in prog.fns])}
+    # (what is_empty and the map encoder call - a `len()` that is_empty is built on, say - is reached only from cbor_bstr's
+    # None edge as well)
+    ONLY_FROM_NONE_EDGE = ("header::ProtectedHeader::is_empty", "<header::ProtectedHeader as common::AsCborValue>::to_cbor_value")
+    reach = {cg.def_of(k) for k in cg.reachable([r for r in roots if r in prog.fns], stop=ONLY_FROM_NONE_EDGE)}
     offenders = []
     for k in sorted(reach):
         f = prog.fns[k]
